@@ -162,11 +162,15 @@ def run_config(base, files, mp, opts, include, matcher, res, label):
     # an import of an ancestor package of module_path leaves module_path: judged like an external import;
     # imports of the importer's other ancestors (inside module_path) are outside every claim
     to_mp_ancestor = {(u, v) for u, v in edges if v in mp_ancestors(mp)}
+    # for the comparison between configurations every import among internal modules counts, also an import of
+    # the importer's own package (which the model leaves open): whatever it is, it is the same in every configuration
+    raw_internal = sorted([u, v] for u, v in edges - to_mp_ancestor if v in e_mods)
     edges = drop_ancestor_edges(edges - to_mp_ancestor)
     got_int_edges = {(u, v) for u, v in edges if v in e_mods}
     got_ext_edges = (edges - got_int_edges) | to_mp_ancestor
     obs = {"internal_modules": sorted(mods - got_ext_mods), "external_modules": sorted(got_ext_mods),
-           "internal_edges": sorted(map(list, got_int_edges)), "external_edges": sorted(map(list, got_ext_edges))}
+           "internal_edges": sorted(map(list, got_int_edges)), "external_edges": sorted(map(list, got_ext_edges)),
+           "all_internal_edges": raw_internal}
     if (mods - got_ext_mods) != e_mods:
         return ("internal-modules-changed", sorted(e_mods), obs), obs
     if not (drop_ancestor_edges(must) <= got_int_edges <= drop_ancestor_edges(may)):
@@ -247,9 +251,9 @@ def run_shard(shard, tier, seed):
                     continue
                 if baseline is None:
                     baseline = obs
-                elif (obs["internal_modules"], obs["internal_edges"]) != (baseline["internal_modules"], baseline["internal_edges"]):
+                elif (obs["internal_modules"], obs["all_internal_edges"]) != (baseline["internal_modules"], baseline["all_internal_edges"]):
                     res.violation("internal-part-differs-from-default-configuration", case,
-                                  {k: baseline[k] for k in ("internal_modules", "internal_edges")}, obs)
+                                  {k: baseline[k] for k in ("internal_modules", "all_internal_edges")}, obs)
             if len(res.samples) < 1:
                 res.sample({"module_path": mp, "importer": importer, "statements": [source([f]).strip() for f in facts],
                             "options": {"exclude_external_libraries": False, "external_exclusions": ["os*"]}})
@@ -276,7 +280,7 @@ def _check_case(case):
         v, obs = run_config(base, files, case["mp"], opts, include, matcher, res, case["label"])
         if v is None and obs is not None:
             v0, obs0 = run_config(base, files, case["mp"], {}, False, None, res, "excluded")
-            if obs0 and (obs["internal_modules"], obs["internal_edges"]) != (obs0["internal_modules"], obs0["internal_edges"]):
+            if obs0 and (obs["internal_modules"], obs["all_internal_edges"]) != (obs0["internal_modules"], obs0["all_internal_edges"]):
                 v = ("internal-part-differs-from-default-configuration", obs0, obs)
         return v
     finally:
